@@ -944,3 +944,36 @@ M('W-getter-crossed', 'C02', 'C02.W', SL,
   """    pub(crate) fn last_saved_frame(&self) -> Frame {
         self.last_saved_frame""", """    pub(crate) fn last_saved_frame(&self) -> Frame {
         self.last_confirmed_frame""", 'getter returns the neighbouring field')
+
+# ---------------------------------------------------------------- round 4: configuration-determined panics, forwarding
+M('O4-duration-plain-sub', 'C16', 'C16.O4', PROTO,
+  """                    let duration: Duration = self
+                        .disconnect_timeout
+                        .saturating_sub(self.disconnect_notify_start);""",
+  """                    let duration: Duration = self.disconnect_timeout - self.disconnect_notify_start;""",
+  'Duration subtraction panics when the notify delay exceeds the timeout (a configuration the builder accepts)')
+N('duration-sub-guarded', ['C16', 'C07', 'C12'], PROTO,
+  """                    let duration: Duration = self
+                        .disconnect_timeout
+                        .saturating_sub(self.disconnect_notify_start);""",
+  """                    let duration: Duration = if self.disconnect_timeout >= self.disconnect_notify_start {
+                        self.disconnect_timeout - self.disconnect_notify_start
+                    } else {
+                        Duration::ZERO
+                    };""", 'saturating_sub written as a guarded subtraction')
+M('O4-prediction-minus-one', 'C16', 'C16.O4', PROTO,
+  """                .retain(|&k, _| k >= last_recv_frame - 2 * self.max_prediction as i32);""",
+  """                .retain(|&k, _| k >= last_recv_frame - 2 * (self.max_prediction - 1) as i32 - 2);""",
+  'unsigned subtraction on the prediction window: underflows for lockstep (window 0)')
+M('O4-wait-fps-unchecked-field', 'C16', 'C16.O4', P2P,
+  """        let micros = (1_000_000_u64 / self.fps as u64).max(1);""",
+  """        let micros = (1_000_000_u64 / self.max_prediction as u64).max(1);""",
+  'divides by the prediction window, which may be 0 (lockstep)')
+M('W-forward-filtered-handles', ['C18', 'C07'], ['C18.W', 'C07.W'], BUILDER,
+  """        // create the endpoint, set parameters
+        let mut endpoint = UdpProtocol::new(
+            handles,""",
+  """        // create the endpoint, set parameters
+        let mut endpoint = UdpProtocol::new(
+            handles.into_iter().filter(|&h| h < self.num_players).collect(),""",
+  'spectator endpoints get an empty handle list: the Disconnected arm never stops them')
